@@ -78,6 +78,19 @@ def check_config(chk, prog, cfg):
         if len(init) == 1 and init[0][0] == "call" and init[0][1]["name"] in ("core::mem::replace",):
             entry = ("var", l, b.names[l])
             entry_init = init[0]
+    swap_form = None
+    if entry is None:
+        # `let mut e = placeholder_type(); mem::swap(&mut e, &mut types[id as usize]);` takes the entry out just the same
+        for bb, t in b.calls_to("core::mem::swap"):
+            ct_ = b.call_term(t, bb=bb)
+            a0, a1 = mir.strip_transparent(ct_[2][0]), mir.strip_transparent(ct_[2][1])
+            for v_, other in ((a0, a1), (a1, a0)):
+                if v_[0] == "var" and other[0] == "index":
+                    ini = b.var_init(v_[1])
+                    if len(ini) == 1 and ini[0][0] == "call" and last(ini[0][1]["name"]) == "placeholder_type":
+                        entry = v_
+                        entry_init = ("call", dict(ct_[1]), (("ref", True, other),))
+                        swap_form = ct_
     if entry is None:
         chk.unrecognised("R10.O", "retain_type:entry", W(), "no local initialised by core::mem::replace(&mut types[..], ..) found", cfg)
         return
@@ -296,7 +309,7 @@ def check_config(chk, prog, cfg):
                 if ap is not None and ap[0] == entry:
                     if last(nm) in ("deref_mut", "iter_mut", "into_iter", "as_mut", "next"):
                         continue
-                    if at[2] == entry and nm == "core::mem::replace":
+                    if at[2] == entry and nm in ("core::mem::replace", "core::mem::swap"):
                         continue
                     if nm in rewriters:
                         continue  # judged above: the helper writes `*p = From(retain_type(p.id, ..))` and nothing else
